@@ -466,8 +466,9 @@ RNG = RngModel()
 def _shape_size(size):
     if size is None:
         return None, 1
-    if isinstance(size, (int, _np.integer)):
-        return (int(size),), int(size)
+    if isinstance(size, (int, _np.integer)) or is_sym(size):
+        n = size.__index__() if is_sym(size) else int(size)
+        return (n,), n
     shp = tuple(int(s) for s in size)
     n = 1
     for s in shp:
